@@ -289,6 +289,17 @@ var topRules = []topRule{
 	{name: "duplicate-object-type-field", good: "type T = { a: int, b: int };\nfn main() { let v: T = new { a: 1, b: 2 }; println(v.a); }\n", bad: "type T = { a: int, a: int };\nfn main() { println(1); }\n"},
 	{name: "duplicate-type", good: "type T = int;\ntype U = int;\nfn main() { let v: T = 1; let w: U = 2; println(v, w); }\n", bad: "type T = int;\ntype T = str;\nfn main() { println(1); }\n"},
 	{name: "non-constant-global-call", good: "let g = 1 + 2;\nfn main() { println(g); }\n", bad: helpers + "let g = ret_int();\nfn main() { println(g); }\n"},
+	{name: "non-constant-global-range-bound", good: "let g = 1..5;\nfn main() { println(g); }\n", bad: helpers + "let g = ret_int()..5;\nfn main() { println(g); }\n"},
+	{name: "non-constant-global-range-end", good: "let g = 1..(2 + 3);\nfn main() { println(g); }\n", bad: "let a = 1;\nlet g = 0..a;\nfn main() { println(g); }\n"},
+	{name: "non-constant-global-index", good: "let g = [1, 2][1];\nfn main() { println(g); }\n", bad: "let a = 1;\nlet g = [1, 2][a];\nfn main() { println(g); }\n"},
+	{name: "non-constant-global-in-list", good: "let g = [1, 2 + 3];\nfn main() { println(g); }\n", bad: helpers + "let g = [1, ret_int()];\nfn main() { println(g); }\n"},
+	{name: "non-constant-global-in-object", good: "let g = new { a: 1, b: [2] };\nfn main() { println(g.a); }\n", bad: helpers + "let g = new { a: 1, b: [ret_int()] };\nfn main() { println(g.a); }\n"},
+	{name: "non-constant-global-other-global", good: "let a = 1;\nlet g = 1;\nfn main() { println(g, a); }\n", bad: "let a = 1;\nlet g = a;\nfn main() { println(g); }\n"},
+	{name: "non-constant-global-infix", good: "let g = 1 + 2 * 3;\nfn main() { println(g); }\n", bad: helpers + "let g = 1 + ret_int();\nfn main() { println(g); }\n"},
+	{name: "non-constant-global-cast", good: "let g = 1 as float;\nfn main() { println(g); }\n", bad: helpers + "let g = ret_int() as float;\nfn main() { println(g); }\n"},
+	{name: "non-constant-global-member", good: "let g = \"abc\";\nfn main() { println(g.len()); }\n", bad: "let g = \"abc\".len();\nfn main() { println(g); }\n"},
+	{name: "non-constant-global-block", good: "let g = { 1 };\nfn main() { println(g); }\n", bad: helpers + "let g = { ret_int() };\nfn main() { println(g); }\n"},
+	{name: "non-constant-global-option", good: "let g = ?1;\nfn main() { println(g); }\n", bad: helpers + "let g = ?ret_int();\nfn main() { println(g); }\n"},
 	{name: "global-type-mismatch", good: "let g: int = 1;\nfn main() { println(g); }\n", bad: "let g: int = \"s\";\nfn main() { println(g); }\n"},
 	// A function whose result comes from a `loop` that is only left through `return` needs no tail value; other loops
 	// with their own `break` (before it, inside it, in an earlier function) do not change that. The bad twin's loop
@@ -314,6 +325,11 @@ var topRules = []topRule{
 	{name: "if-branches-after-returning-branch", good: "fn f(n: int) -> int { if n == 0 { return 0; } else if n == 1 { 1 } else { 2 } }\nfn main() { println(f(1)); }\n", bad: "fn f(n: int) -> int { if n == 0 { return 0; } else if n == 1 { \"one\" } else { 2 } }\nfn main() { println(f(1)); }\n"},
 	{name: "if-use-after-returning-branch", good: "fn f(n: int) -> int { let v = if n == 0 { return 0; } else { 5 }; v + 1 }\nfn main() { println(f(1)); }\n", bad: "fn f(n: int) -> int { let v = if n == 0 { return 0; } else { 5 }; v + \"s\" }\nfn main() { println(f(1)); }\n"},
 	{name: "try-catch-after-returning-body", good: "fn f(n: int) -> int { let v = try { if n == 0 { return 0; } 3 } catch e { 4 }; v + 1 }\nfn main() { println(f(1)); }\n", bad: "fn f(n: int) -> int { let v = try { if n == 0 { return 0; } 3 } catch e { \"s\" }; v + 1 }\nfn main() { println(f(1)); }\n"},
+	// a type name declared again in an inner scope: the innermost declaration is the one a name refers to
+	{name: "type-shadowed-in-function", good: "type Id = int;\nfn main() { type Id = str; let label: Id = \"device\"; println(label); }\n", bad: "type Id = int;\nfn main() { type Id = str; let label: Id = 42; println(label); }\n"},
+	{name: "type-shadowed-in-block", good: "fn main() { type Id = int; let a: Id = 1; { type Id = str; let b: Id = \"s\"; println(b); } println(a); }\n", bad: "fn main() { type Id = int; let a: Id = 1; { type Id = str; let b: Id = 2; println(b); } println(a); }\n"},
+	{name: "type-shadow-ends-with-its-block", good: "fn main() { type Id = int; { type Id = str; let b: Id = \"s\"; println(b); } let a: Id = 1; println(a); }\n", bad: "fn main() { type Id = int; { type Id = str; let b: Id = \"s\"; println(b); } let a: Id = \"t\"; println(a); }\n"},
+	{name: "type-shadowed-object-type", good: "type P = { x: int };\nfn f() -> int { type P = { y: int }; let p: P = new { y: 1 }; p.y }\nfn main() { let q: P = new { x: 2 }; println(f(), q.x); }\n", bad: "type P = { x: int };\nfn f() -> int { type P = { y: int }; let p: P = new { x: 1 }; 1 }\nfn main() { let q: P = new { x: 2 }; println(f(), q.x); }\n"},
 	// a bare `none` fits every option type; it must not make the branches that follow it fit each other
 	// (not claimed: a list literal / try whose FIRST element / block is a bare none has the type of that none and
 	// needs an annotation, which is then validated at run time - the analyzer's implicit-any rule, not a leak)
